@@ -64,17 +64,20 @@ class _Stub:
 
 def _route(cin):
     cm = _st["cm"]
-    key = ("model",)
+    fit = cin.get("fit", "all")
+    key = ("model", fit)
     if key not in _st["cache"]:
         names = SEG_ORDER["three_month_weighted"]
         stubs = [_Stub(n, k + 1) for k, n in enumerate(names)]
+        if fit == "djf":                # a short baseline: only the segments centred on December, January, February were fitted
+            stubs = [s for s in stubs if s.code in (12, 1, 2)]      # the occupancy / bin tables keep all twelve columns
         how = pd.Series(range(168), name="hour_of_week")
         occ = pd.DataFrame({n: 1 for n in names}, index=how)
         bins = pd.DataFrame({n: [False] * 6 for n in names}, index=pd.Series([30, 45, 55, 65, 75, 90], name="bin_endpoints"))
         _st["cache"][key] = cm.CalTRACKHourlyModel(stubs, occ, bins, bins.copy(), "three_month_weighted")
     model = _st["cache"][key]
     idx = _year_index(cin["y"], cin["tz"])
-    pkey = ("pred", cin["y"], cin["tz"])
+    pkey = ("pred", fit, cin["y"], cin["tz"])
     if pkey not in _st["cache"]:
         temp = pd.Series(60.0, index=idx)
         _st["cache"][pkey] = model.predict(idx, temp).result["predicted_usage"]
